@@ -81,6 +81,11 @@ def make_pool(rnd, n):
         pool.append((tmpl % (db + rest), vars_))
     for text in ["base + fee", "fee * 2", "fee", "rate + quota", "fee(1) + fee", "x = fee; x + fee", "[fee, rate, fee]", "fee + nosuch", "rate = rate + 1; rate", "fee == 3 ? quota : rate"]:
         pool.append((text, {"base": ["n", "10", 0]}))
+    # map literals with repeated keys (after evaluation) among distinct ones, lists of maps: construction order is part of the value
+    for text in ["{'a': 1, 'b': 2, 'a': 3, 'c': 4}", "{k: 1, 'x': 2, 'y': 3, 'x': 4}", "{1: 'a', 2: 'b', 1.0: 'c', 3: 'd'}", "[{'p': 1, 'q': 2, 'p': 3}, {'q': 1, 'p': 2, 'q': 3}]",
+                 "m = {'code': 'STD', 'rate': base + 0.05, 'tier': 2, k: 'VIP'}; m", "{'z': 1, 'y': 2, 'x': 3, 'w': 4, 'v': 5, 'u': 6, 'z': 7}", "{[1]: 1, [2]: 2, [1]: 3, 'k': {true: 1, false: 2, true: 3}}"]:
+        pool.append((text, {"base": ["n", "10", 0], "k": ["s", "x"]}))
+        pool.append((text, {"base": ["n", "10", 0], "k": ["s", "code"]}))
     # a registered function that panics when asked to (fault injection): other evaluations must not notice
     pool.append(("pfn(1)", {}))
     return pool
@@ -176,11 +181,65 @@ def nested_runs(si, profile, part):
                     part["classes"].add("nested:%s:i%d:o%d" % (via, ii, oi))
 
 
+COLD = ["sum(1, 2) + min(3, 4)", "max(1, 2)", "mul(2, 3) ; sum(4)", "1 + 2 * 3", "not (1 in [1])", "'ab' beginWith 'a'", "x = 2; x ++", "AND [true, 1 < 2]", "- 3 + (2 ++)", "min(sum(1, 1), mul(3, 1), 4)",
+        "[max(1), {sum(2, 3): 'k'}]", "true ? sum(1, 2, 3) : 0", "v = max(7, 8) ; v -= 1 ; v"]
+
+
+def cold_runs(si, n, profile, part):
+    """evaluations that overlap another thread's FIRST use of the engine in a fresh process (the first caller is parked inside the
+    lazy start-up at one of its five stages): each must give what it gives alone"""
+    wd = common.workdir(PROP)
+    rnd = common.rng(PROP, "cold", si)
+    alone = {}
+    for h in range(n):
+        stage = (h + si) % 5
+        a_first = rnd.choice([{"op": "parse", "text": "1 + 2"}, {"op": "exec", "text": "max(1, 2)"}, {"op": "reg_fn", "name": "zz%d" % h, "beh": {"id": 1}}, {"op": "exec", "text": "1"}])
+        progs = [rnd.sample(COLD, 3) for _ in range(rnd.choice([1, 2, 3]))]
+        steps = [{"op": "init_race", "stage": stage, "a": [a_first], "bs": [[{"op": "exec", "text": t_, "want": "ae"} for t_ in pl] for pl in progs], "wait_ms": 60}]
+        run = common.run_vexec(steps, wd, "cold-%d-%d-%s" % (si, h, profile), profile, timeout=120)
+        kind_, detail = common.crash_verdict(run, "cold start")
+        if kind_ is not None or not run.ended:
+            if kind_ in ("signal", "hang", "deadlock"):
+                part["violations"].append({"sig": ["crash", kind_, "cold"], "what": "evaluations during another thread's first use: " + detail, "replay": {"steps": steps}})
+            else:
+                part["inconclusive"].append("%s %s" % (kind_, detail))
+            continue
+        st = run.steps()
+        if not st or not (st[0].get("probe_mask", 0) & (1 << stage)):
+            part["inconclusive"].append("init probe never reached stage %d" % stage)
+            continue
+        part["counts"]["cold_processes"] = part["counts"].get("cold_processes", 0) + 1
+        for pl, recs in zip(progs, st[0].get("bs", [])):
+            if not isinstance(recs, list):
+                part["violations"].append({"sig": ["thread-panicked", "cold"], "what": "a thread evaluating during another thread's first use panicked", "replay": {"steps": steps}})
+                continue
+            for t_, r in zip(pl, recs):
+                if t_ not in alone:
+                    ra = common.run_vexec([{"op": "exec", "text": t_, "want": "ae"}], wd, "cold-alone-%d-%d-%s" % (si, len(alone), profile), profile)
+                    alone[t_] = cmp_fields(ra.steps()[-1]) if ra.ended and ra.steps() else None
+                a = alone[t_]
+                if a is None:
+                    part["inconclusive"].append("alone run failed")
+                    continue
+                part["evaluations"] += 1
+                part["counts"]["cold_evaluations"] = part["counts"].get("cold_evaluations", 0) + 1
+                g = cmp_fields(r)
+                if g == a:
+                    part["classes"].add("cold:stage%d:%s" % (stage, a_first["op"]))
+                else:
+                    diff = {k: (g.get(k), a.get(k)) for k in a if g.get(k) != a.get(k)}
+                    part["violations"].append({"sig": ["differs-from-alone", "cold-start", "stage%d" % stage], "what": "`%s`, evaluated while another thread's first engine call (%s) was inside the lazy start-up (stage %d), gives %s but alone %s" % (t_, a_first["op"], stage, json.dumps({k: v[0] for k, v in diff.items()})[:300], json.dumps({k: v[1] for k, v in diff.items()})[:300]), "replay": {"steps": steps}})
+
+
 def run_shard(desc):
     si, nhist, profile = desc
     rnd = common.rng(PROP, si)
     wd = common.workdir(PROP)
     part = {"evaluations": 0, "classes": set(), "violations": [], "samples": [], "abstained": 0, "inconclusive": [], "counts": {"histories": 0, "alone_runs": 0, "sequential_steps": 0, "threaded_steps": 0, "kept_ast_runs": 0, "parse_only_steps": 0}}
+    if 700 <= si < 800:
+        cold_runs(si, nhist, profile, part)
+        part["classes"] = sorted(part["classes"])
+        return part
     if 800 <= si < 900:
         nested_runs(si, profile, part)
         part["classes"] = sorted(part["classes"])
@@ -340,9 +399,10 @@ def run(rep, tier):
     common.build("verifdbg")
     common.build("release")
     nh = 48 if tier == "quick" else 1200
-    shards = [(i, nh // 16, "release" if i % 2 else "verifdbg") for i in range(16)]
+    shards = [(900, 1, "release"), (901, 1, "verifdbg")]  # two long histories (thresholds that need thousands of evaluations); first, they take longest
+    shards += [(i, nh // 16, "release" if i % 2 else "verifdbg") for i in range(16)]
+    shards += [(700 + i, 10 if tier == "quick" else 200, "release" if i % 2 else "verifdbg") for i in range(16)]  # evaluations during another thread's first use
     shards += [(800 + i, 1, "release" if i % 2 else "verifdbg") for i in range(16)] + [(816 + i, 1, "verifdbg" if i % 2 else "release") for i in range(16)]  # nested evaluations on a second context
-    shards += [(900, 1, "release"), (901, 1, "verifdbg")]  # two long histories (thresholds that need thousands of evaluations)
     for part in common.pmap(run_shard, shards):
         rep.merge(part)
     rep.floor = 5000
